@@ -18,6 +18,12 @@
 (* failed OS write rolls the global counter back; FIXED = FALSE is the      *)
 (* behaviour of the pinned code (no rollback) and violates UsedEqSum.       *)
 (*                                                                         *)
+(* MUT = TRUE models the write as `load used; reject if used+len > limit;   *)
+(* write the file; then add len to both counters` - sequentially the same   *)
+(* function, but two writers released together both pass the check: TLC     *)
+(* refutes LimitRespected (committed bytes beyond the limit in force).       *)
+(* This is why the implementation adds first and rolls back.                *)
+(*                                                                         *)
 (* With T = 1 every behaviour is a sequential API history; `hist` carries   *)
 (* the operations with the observable values expected after each of them    *)
 (* (binding B3: replayed on the real DiskManager).                          *)
@@ -32,7 +38,8 @@ CONSTANTS NF,       \* max files created
           MAXH,     \* max handles (arcs + struct clones) per file
           MAXOPS,   \* ops per behaviour
           FAULTS,   \* OS write faults enabled
-          FIXED     \* failed OS write rolls back the global counter
+          FIXED,    \* failed OS write rolls back the global counter
+          MUT       \* negative control: check-then-add (load used; compare; OS write; THEN add to the counters)
 
 INF == 1000000
 Files == 1..NF
@@ -52,7 +59,7 @@ LiveSet == {f \in Files : Live(f)}
 RECURSIVE Sum(_, _)
 Sum(fn, S) == IF S = {} THEN 0 ELSE LET x == CHOOSE x \in S : TRUE IN fn[x] + Sum(fn, S \ {x})
 Quiescent == \A t \in Threads : pc[t] = "idle"
-InFlight(t) == IF pc[t] \in {"w_check", "w_os", "w_file"} THEN wn[t] ELSE 0
+InFlight(t) == IF ~MUT /\ pc[t] \in {"w_check", "w_os", "w_file"} THEN wn[t] ELSE 0
 Committed == Sum(usage, LiveSet)
              + Sum([t \in Threads |-> IF pc[t] \in {"w_os", "w_file"} THEN wn[t] ELSE 0], Threads)
 Sizes == [f \in Files |-> IF Live(f) THEN usage[f] ELSE 0]
@@ -144,7 +151,7 @@ W_add(t, f, n, flt) ==
   /\ IF n = 0
        THEN /\ UNCHANGED <<impl, loc, over>>
             /\ Done(t, "write", f, 0, FALSE, "ok")
-       ELSE /\ used' = used + n
+       ELSE /\ used' = (IF MUT THEN used ELSE used + n)
             /\ pc' = [pc EXCEPT ![t] = "w_check"] /\ wf' = [wf EXCEPT ![t] = f]
             /\ wn' = [wn EXCEPT ![t] = n] /\ wflt' = [wflt EXCEPT ![t] = flt]
             /\ wng' = [wng EXCEPT ![t] = used + n]
@@ -155,7 +162,7 @@ W_check(t) ==
   /\ pc[t] = "w_check"
   /\ UNCHANGED <<limit, active, usage, arcs, scl, created, broken, wf, wn, wflt, wng, nops>>
   /\ IF wng[t] > limit
-       THEN /\ used' = used - wn[t] /\ pc' = [pc EXCEPT ![t] = "idle"]
+       THEN /\ used' = (IF MUT THEN used ELSE used - wn[t]) /\ pc' = [pc EXCEPT ![t] = "idle"]
             /\ UNCHANGED over
             /\ Done(t, "write", wf[t], wn[t], wflt[t], "rejected")
        ELSE /\ pc' = [pc EXCEPT ![t] = "w_os"]
@@ -170,7 +177,7 @@ W_os(t) ==
   /\ UNCHANGED <<limit, active, usage, arcs, scl, created, wf, wn, wflt, wng, nops, over>>
   /\ IF wflt[t] \/ broken[wf[t]]
        THEN /\ broken' = [broken EXCEPT ![wf[t]] = TRUE]
-            /\ used' = IF FIXED THEN used - wn[t] ELSE used
+            /\ used' = (IF FIXED /\ ~MUT THEN used - wn[t] ELSE used)
             /\ pc' = [pc EXCEPT ![t] = "idle"]
             /\ Done(t, "write", wf[t], wn[t], wflt[t], "oserr")
        ELSE /\ pc' = [pc EXCEPT ![t] = "w_file"]
@@ -181,7 +188,8 @@ W_file(t) ==
   /\ pc[t] = "w_file"
   /\ usage' = [usage EXCEPT ![wf[t]] = @ + wn[t]]
   /\ pc' = [pc EXCEPT ![t] = "idle"]
-  /\ UNCHANGED <<limit, used, active, arcs, scl, created, broken, wf, wn, wflt, wng, nops, over>>
+  /\ used' = (IF MUT THEN used + wn[t] ELSE used)
+  /\ UNCHANGED <<limit, active, arcs, scl, created, broken, wf, wn, wflt, wng, nops, over>>
   /\ Done(t, "write", wf[t], wn[t], wflt[t], "ok")
 
 Next ==
